@@ -1,9 +1,13 @@
 """C05 — serialization and persistence round trip: what is saved is what is loaded."""
+import atexit
 import copy
+import itertools
+import os
 import pickle
 import random
 import shutil
 import tempfile
+import types
 
 import pyglove as pg
 from pgverif.gen import serial as S
@@ -20,13 +24,21 @@ TIERS = {
     'thorough': dict(shards=16, values=4000, histories=320, steps=60, timeout_s=9000),
 }
 RULE = ('value case = one described serializable value (primitives incl. special floats and '
-        'hostile strings, tuples, plain/symbolic lists and dicts with str and int keys, '
+        'hostile strings - control characters, NUL, every kind of line break, unpaired '
+        'surrogates, non-BMP text, JSON look-alikes, 5k/70k characters - as values and as dict '
+        'keys, tuples, plain/symbolic lists and dicts with str and int keys, '
         'objects of pgverif.models (typed, untyped, partial), functor instances, hyper '
-        'primitives, opaque leaves, classes/functions/methods/annotations, typed root '
-        'containers, value specs, fields, schemas, DNASpecs and DNAs) sent through four '
-        'codecs (to_json/from_json, to_json_str/from_json_str, pickle, copy.deepcopy) with '
-        'equality (NaN-aware), type, pg.hash, tree_ok, schema_ok and a differential '
-        'invalid-write monitor; non-trivial = the value has at least 2 description nodes, '
+        'primitives, opaque leaves, classes/functions/methods/annotations (also with typed '
+        'default arguments), lambdas and locally defined functions whose positional and '
+        'keyword-only defaults are values of every serializable kind (nested, as roots and as '
+        'leaves of containers and objects), typed root '
+        'containers, value specs, fields, schemas, DNASpecs and DNAs) sent through six '
+        'codecs (to_json/from_json, to_json_str/from_json_str, a file of the standard and of '
+        'the in-memory file system written by pg.save/Symbolic.save (new path or overwrite) or '
+        'as a record of open_jsonl/open_sequence (new file or append), pickle, copy.deepcopy) '
+        'with equality (NaN-aware; functions carried as code: same code, same defaults, same '
+        'result of a call that relies on the defaults), type, pg.hash, tree_ok, schema_ok and a '
+        'differential invalid-write monitor; non-trivial = the value has at least 2 description nodes, '
         'distinct by description. history case = one history of save/overwrite/rm/'
         'writefile/sequence write+append operations, interleaved with reader handles that '
         'stay open over later operations (pg.io.open read in pieces by read(n)/read()/'
@@ -40,7 +52,8 @@ RULE = ('value case = one described serializable value (primitives incl. special
         'otherwise only now and then), and every read of an open handle against the content '
         'its path had when it was opened; non-trivial = at least 8 successful writes with an overwrite and an '
         'append, distinct by (file system, operation sequence).')
-REQUIRED_COUNTERS = ['roundtrips', 'eq_checks', 'type_checks', 'hash_checks', 'tree_ok_evals',
+REQUIRED_COUNTERS = ['roundtrips', 'file_roundtrips', 'roundtrips_with_function_defaults',
+                     'eq_checks', 'type_checks', 'hash_checks', 'tree_ok_evals',
                      'schema_ok_evals', 'invalid_writes_rejected', 'persist_ops',
                      'persist_content_checks', 'persist_load_checks',
                      'persist_listdir_checks', 'persist_seq_checks',
@@ -49,9 +62,20 @@ ASSUMPTIONS = [
     'documented mappings are part of the oracle: from_json maps dict/list to pg.Dict/pg.List, '
     'partial values need allow_partial=True, a typed root container gets its spec back '
     'through from_json(value_spec=...)',
-    'not generated (the property is silent): pg.Ref, lambdas/local classes, bool or float '
+    'not generated (the property is silent): pg.Ref, local classes, functions with a closure, '
+    'partial objects or typed root containers inside default arguments, bool or float '
     'dict keys, keys with unbalanced brackets, MISSING_VALUE members, raw text records with '
-    'line breaks, raw text files with carriage returns or non-ASCII characters',
+    'line breaks, raw text files with carriage returns or non-ASCII characters (every str is '
+    'generated inside JSON values, where the encoding is the library\'s business)',
+    'a lambda / local function is restored from its code: pg.eq and pg.hash look at the byte '
+    'code only, so the harness also compares __defaults__, __kwdefaults__ and the result of a '
+    'call (containers inside defaults may come back plain or symbolic); __module__, '
+    'annotations and attributes are not compared; pickle is skipped for such values (Python '
+    'pickles functions by qualified name)',
+    'a file codec is layered over the string form (skipped when that failed) and judged by '
+    'no exception, record count, type, equality and hash only',
+    'a write that raised: the path must afterwards hold the previous or the new content '
+    '(which of the two is left open); then the path is forgotten',
     'pickle drops the value spec of a root pg.Dict/pg.List (stated in the library); the '
     'invalid-write monitor therefore uses typed roots only with the JSON codecs and deepcopy',
     'the string form is layered over the object form: a value that already fails in object '
@@ -64,7 +88,8 @@ ASSUMPTIONS = [
     'readers are open means the same as without them',
 ]
 
-CODECS = ['json', 'json-str', 'pickle', 'deepcopy']
+CODECS = ['json', 'json-str', 'file-std', 'file-mem', 'pickle', 'deepcopy']
+FILE_CODECS = ('file-std', 'file-mem')
 SCHEMA_FAMILIES = ('container', 'object', 'typed-root')
 
 
@@ -87,7 +112,7 @@ def run_codec(codec, v, d, variant=0):
   kw = {}
   if S.is_partial(d):
     kw['allow_partial'] = True
-  if codec in ('json', 'json-str'):
+  if codec in ('json', 'json-str') + FILE_CODECS:
     vs = S.root_value_spec(d)
     if vs is not None:
       kw['value_spec'] = vs
@@ -101,13 +126,110 @@ def run_codec(codec, v, d, variant=0):
     else:
       s = pg.to_json_str(v, json_indent=2 if variant & 2 else None)
     return pg.from_json_str(s, **kw)
+  if codec in FILE_CODECS:
+    return run_file(codec, v, kw, variant)
   if codec == 'pickle':
     return pickle.loads(pickle.dumps(v, protocol=(2 if variant & 1 else pickle.HIGHEST_PROTOCOL)))
   return copy.deepcopy(v)
 
 
+_STD = {}
+_SERIAL = itertools.count()
+
+
+def std_dir():
+  if 'dir' not in _STD:
+    _STD['dir'] = tempfile.mkdtemp(prefix='pgverif-c05v-')
+    atexit.register(shutil.rmtree, _STD['dir'], True)
+  return _STD['dir']
+
+
+class RecordCount:
+  """What a record file returned when it is not one record per add."""
+
+  def __init__(self, got, added):
+    self.got, self.added = got, added
+
+
+def run_file(codec, v, kw, variant):
+  """The value through a file of the standard / the in-memory file system.
+  Bits 2-3 of `variant` select the route: pg.save + pg.load of a new path, the
+  same as an overwrite of another value, one record of a new record file,
+  a record appended to an existing record file."""
+  n = next(_SERIAL)
+  route = (variant >> 2) & 3
+  root = std_dir() if codec == 'file-std' else f'/mem/c05v{os.getpid()}'
+  path = f'{root}/r{n % 5}/v{n}' + ('.json' if route < 2 else '.jsonl')
+  sym = isinstance(v, pg.Symbolic)
+  try:
+    if route < 2:
+      if route == 1:
+        pg.save(pg.Dict(previous=['value'] * (n % 40)), path)
+      skw = {'indent': 2} if variant & 2 else {}
+      if sym and variant & 1:
+        v.save(path, **skw)
+      else:
+        pg.save(v, path, **skw)
+      # (pg.load passes allow_partial=True itself)
+      return pg.load(path, **{k: x for k, x in kw.items() if k != 'allow_partial'})
+    if kw or variant & 1:
+      opener = lambda m: pg.io.open_sequence(
+          path, m, serializer=pg.to_json_str,
+          deserializer=lambda text: pg.from_json_str(text, **kw))
+    else:
+      opener = lambda m: pg.open_jsonl(path, m)
+    if route == 3:
+      with opener('w') as f:
+        f.add(v)          # (the reader hands `kw` to every record)
+      with opener('a') as f:
+        f.add(v)
+    else:
+      with opener('w') as f:
+        f.add(v)
+    with opener('r') as f:
+      got = list(iter(f))
+    if len(got) != route - 1:
+      return RecordCount(got, route - 1)
+    return got[-1]
+  finally:
+    try:
+      pg.io.rm(path)
+    except Exception:  # pylint: disable=broad-except
+      pass
+
+
 def is_model_object(v):
-  return isinstance(v, pg.Object) and type(v).__module__ == 'pgverif.models'
+  return isinstance(v, pg.Object) and type(v).__module__ in ('pgverif.models',
+                                                             'pgverif.gen.serial')
+
+
+def compare_fn(a, b, where, out):
+  """Two functions that are carried as code + defaults: same code, same
+  default arguments (positional and keyword-only), same result of a call that
+  relies on the defaults. (pg.eq compares the byte code only.)"""
+  where = where or '<root>'
+  if a.__code__ != b.__code__:
+    out.append(('not-equal', f'at {where}: the code of the function differs'))
+    return
+  n = len(out)
+  da, db = a.__defaults__ or (), b.__defaults__ or ()
+  compare(da, db, 'loose', f'{where}.__defaults__', out)
+  ka, kb = dict(a.__kwdefaults__ or {}), dict(b.__kwdefaults__ or {})
+  compare(ka, kb, 'loose', f'{where}.__kwdefaults__', out)
+  if len(out) > n:
+    return
+  try:
+    ra = ('returns', S.call_probe(a))
+  except Exception as e:  # pylint: disable=broad-except
+    ra = ('raises', type(e).__name__)
+  try:
+    rb = ('returns', S.call_probe(b))
+  except Exception as e:  # pylint: disable=broad-except
+    rb = ('raises', type(e).__name__)
+  if ra[0] != rb[0] or (ra[0] == 'raises' and ra[1] != rb[1]):
+    out.append(('not-equal', f'at {where}: the call {ra[0]} {ra[1]!r:.80} -> {rb[0]} {rb[1]!r:.80}'))
+  elif ra[0] == 'returns':
+    compare(ra[1], rb[1], 'loose', f'{where}(...)', out)
 
 
 def compare(a, b, mapped, where, out):
@@ -118,6 +240,9 @@ def compare(a, b, mapped, where, out):
     # from_json maps dict/list to pg.Dict/pg.List (documented); a plain
     # container restored from a spec default may also stay plain.
     ta = pg.Dict if ta is dict else (pg.List if ta is list else ta)
+    if mapped == 'loose':
+      # default arguments of a function are restored as plain containers
+      tb = pg.Dict if tb is dict else (pg.List if tb is list else tb)
   if ta is not tb:
     out.append(('type-differs', f'at {where or "<root>"}: {type(a).__name__} came back as '
                 f'{type(b).__name__} ({a!r:.80} -> {b!r:.80})'))
@@ -146,6 +271,10 @@ def compare(a, b, mapped, where, out):
       x = a.sym_getattr(i) if isinstance(a, pg.Symbolic) else a[i]
       y = b.sym_getattr(i) if isinstance(b, pg.Symbolic) else b[i]
       compare(x, y, mapped, f'{where}[{i}]', out)
+    return
+  if (a is not b and isinstance(a, types.FunctionType) and isinstance(b, types.FunctionType)
+      and S.is_code_function(a)):
+    compare_fn(a, b, where, out)
     return
   try:
     ok = (a is b) or bool(pg.eq(a, b))
@@ -189,45 +318,72 @@ def try_write(root, keys, k, bad):
     return True
 
 
+_REBUILD = {}
+
+
 def check(codec, d, family, c=None, variant=0, wseed=0):
   """The round-trip monitors of one codec on one description, in stages:
   no exception; type and equality; hash; tree; schema; invalid write. A later
   stage presupposes the earlier ones, so the first stage that fails decides.
   Returns [(clause, detail)] (one entry per clause of that stage)."""
   count = (lambda n: None) if c is None else (lambda n: c.update([n]))
+  if codec == 'pickle' and S.has_code_fn(d):
+    # pickle refers to functions by qualified name (Python): lambdas and local
+    # functions cannot be pickled
+    count('pickle_skipped_local_function')
+    return []
   v = S.build(d)
   # pickle drops the value spec of a typed root (see ASSUMPTIONS): plain
   # containers kept plain by that spec (frozen defaults) then become symbolic.
-  mapped = codec in ('json', 'json-str') or (codec == 'pickle' and d[0] in ('TD', 'TL'))
+  mapped = (codec in ('json', 'json-str') + FILE_CODECS
+            or (codec == 'pickle' and d[0] in ('TD', 'TL')))
   nan = S.has_nan(d)
   # The laws compare the restored value with the original by pg.eq / pg.hash.
   # Where two identical constructions are not equal (or hash differently) to
   # begin with, equality (hashing) of that value is not something a codec can
   # preserve: C04/C06 territory, not judged here.
-  twin = S.build(d)
+  # (a fact about the description, independent of the codec: decided once)
   hash_defined = not nan and not S.hash_undefined(d)
+  twin = None
   if not nan:
-    diffs = []
-    compare(v, twin, False, '', diffs)
-    try:
-      same = not diffs and pg.eq(v, twin) and pg.eq(twin, v)
-    except Exception:  # pylint: disable=broad-except
-      same = False
+    key = repr(d)
+    if key not in _REBUILD:
+      if len(_REBUILD) > 4000:
+        _REBUILD.clear()
+      twin = S.build(d)
+      diffs = []
+      compare(v, twin, False, '', diffs)
+      try:
+        same = not diffs and pg.eq(v, twin) and pg.eq(twin, v)
+      except Exception:  # pylint: disable=broad-except
+        same = False
+      same_hash = True
+      if same and hash_defined:
+        try:
+          same_hash = pg.hash(v) == pg.hash(twin)
+        except TypeError:
+          pass
+      _REBUILD[key] = (same, same_hash)
+    same, same_hash = _REBUILD[key]
     if not same:
       count('skipped_equality_not_reflexive_on_rebuild')
       return []
-    if hash_defined:
-      try:
-        hash_defined = pg.hash(v) == pg.hash(twin)
-      except TypeError:
-        pass
-      if not hash_defined:
-        count('hash_skipped_differs_on_rebuild')
+    if hash_defined and not same_hash:
+      hash_defined = False
+      count('hash_skipped_differs_on_rebuild')
   count('roundtrips')
+  if codec in FILE_CODECS:
+    count('file_roundtrips')
+    count(f'file_route:{codec}/{("save", "overwrite", "record", "append")[(variant >> 2) & 3]}')
+  if S.has_code_fn(d):
+    count('roundtrips_with_function_defaults')
   try:
     back = run_codec(codec, v, d, variant)
   except Exception as e:  # pylint: disable=broad-except
     return [('roundtrip-raises', f'{type(e).__name__}: {e!s:.300}')]
+  if isinstance(back, RecordCount):
+    return [('not-equal', f'{back.added} record(s) added to a new record file, '
+             f'{len(back.got)} read: {back.got!r:.200}')]
   problems = []
   partial = S.is_partial(d)
   # -- equality and type -------------------------------------------------------
@@ -258,7 +414,9 @@ def check(codec, d, family, c=None, variant=0, wseed=0):
         hb = f'unhashable ({e!s:.80})'
       if h != hb:
         problems.append(('hash-differs', f'pg.hash {h} -> {hb} for {v!r:.150}'))
-  if problems:
+  if problems or codec in FILE_CODECS:
+    # (a file holds the string form: tree, schema and invalid writes of the
+    # loaded value are judged with the json-str codec)
     return problems[:1]
   # -- tree ----------------------------------------------------------------------
   if isinstance(back, pg.Symbolic):
@@ -279,7 +437,7 @@ def check(codec, d, family, c=None, variant=0, wseed=0):
         problems.append(('schema-' + clause, detail))
       if d[0] in ('TD', 'TL') and codec != 'pickle':
         count('root_spec_checks')
-        if twin.value_spec != v.value_spec:
+        if (twin or S.build(d)).value_spec != v.value_spec:
           count('root_spec_equality_not_reflexive_on_rebuild')
         elif back.value_spec is None or back.value_spec != v.value_spec:
           problems.append(('schema-spec-lost', f'value_spec {v.value_spec!r:.100} -> '
@@ -333,6 +491,11 @@ def family_of(d, family):
   return family
 
 
+def printable(text):
+  """Details are printed: an unpaired surrogate cannot be encoded."""
+  return text.encode('ascii', 'backslashreplace').decode('ascii')
+
+
 def first_per_clause(problems):
   first = {}
   for clause, detail in problems:
@@ -345,13 +508,16 @@ def value_case(ctx, i):
   family, d = S.gen_value(rng)
   c['family:' + family] += 1
   ctx.seen('value_kinds', S.kind(d))
-  variant = rng.randint(0, 3)
+  variant = rng.randint(0, 15)
   wseed = rng.randint(0, 10**9)
-  failed_json = False
+  failed_json = failed_str = False
   summary = {}
   for codec in CODECS:
     if codec == 'json-str' and failed_json:
       c['json_str_subsumed_by_json'] += 1
+      continue
+    if codec in FILE_CODECS and (failed_json or failed_str):
+      c['file_subsumed_by_string_form'] += 1
       continue
     c['codec:' + codec] += 1
     ctx.label = f'{codec}/monitors'
@@ -359,6 +525,8 @@ def value_case(ctx, i):
     ctx.label = None
     if problems and codec == 'json':
       failed_json = True
+    if problems and codec == 'json-str':
+      failed_str = True
     for clause, detail in problems:
       def observed(cand, clause=clause, codec=codec):
         """Clauses of the same group that `cand` shows with this codec."""
@@ -374,13 +542,14 @@ def value_case(ctx, i):
       clause = (observed(small) or [clause])[0]
       ctx.violation(
           clause, f'{codec}/{S.kind(small)}',
-          f'{detail}\nvalue: {S.show(d):.600}\nminimal: {S.show(small):.300}',
-          {'family': family, 'desc': d, 'minimal': small, 'codec': codec})
+          printable(f'{detail}\nvalue: {S.show(d):.600}\nminimal: {S.show(small):.300}'),
+          {'family': family, 'desc': d, 'minimal': small, 'codec': codec,
+           'variant': variant})
       summary[f'{clause}:{codec}'] = S.kind(small)
   if S.size(d) >= 2 or family not in ('prim', 'symbol'):
     ctx.mark_nontrivial(('value', d))
   if i < 2:
-    ctx.sample({'family': family, 'value': S.show(d)[:400], 'violations': summary})
+    ctx.sample({'family': family, 'value': printable(S.show(d)[:400]), 'violations': summary})
 
 
 # ---------------------------------------------------------------------------
@@ -456,7 +625,7 @@ def run_history(ctx, world, rng, steps):
       if (clause, mech) in reported:
         continue
       reported.add((clause, mech))
-      ctx.violation(clause, mech, f'{detail}\nlast operations: {ops[-8:]}',
+      ctx.violation(clause, mech, printable(f'{detail}\nlast operations: {ops[-8:]}'),
                     {'fs': world.fs, 'history': world.trace[-12:]})
   return ops, stats
 
